@@ -9,7 +9,7 @@ def _crate_dir():
     src = os.path.join(VERIF, "replay")
     if os.path.abspath(REPO) == "/repo":
         return src
-    d = os.path.join(VERIF, "build", "replay_crate")
+    d = os.path.join(os.environ.get("VERIF_BUILD", os.path.join(VERIF, "build")), "replay_crate")
     os.makedirs(os.path.join(d, "src"), exist_ok=True)
     os.makedirs(os.path.join(d, ".cargo"), exist_ok=True)
     shutil.copyfile(os.path.join(src, "src", "main.rs"), os.path.join(d, "src", "main.rs"))
